@@ -357,6 +357,13 @@ func runProgram(c *vh.Ctx, i int) {
 			nc, vs := s.advance(noop)
 			eventsChecked += nc
 			for _, v := range vs {
+				if v.Rule == "noop-update" {
+					// An Update whose Old equals New is wasteful, but it breaks none of the stream clauses C16 lists (order per
+					// key, no duplicate add, no update/delete of an unknown key, nothing dropped, replay reproduces the
+					// content): observed and counted, never a verdict.
+					c.Count("noop_updates_on_noop_free_nodes", 1)
+					continue
+				}
 				k := key("stream-"+v.Rule, s.Node)
 				if reported[k] {
 					continue
